@@ -37,8 +37,12 @@ NextUsed(e) ==
     [] e.op.op = "DeleteAll" -> Restrict(used, Present \cap FailKeys)
     [] e.op.op = "TimerFire" ->
          IF Age <= 0 THEN used
-         ELSE LET expired == {x \in Present : used[x] < now - Age} IN
-              [x \in Present \ (expired \ FailKeys) |-> IF x \in expired THEN now ELSE used[x]]
+         ELSE LET expired == {x \in Present : used[x] < now - Age}
+                  after == [x \in Present \ (expired \ FailKeys) |-> IF x \in expired THEN now ELSE used[x]]
+                  \* probe: while the cleanup of key e.reset ran, another goroutine called Set for that key; the prune holds the
+                  \* cache for its whole run, so the Set takes effect after it: the key is there again (never dropped without cleanup)
+                  rk == IF "reset" \in DOMAIN e THEN e.reset ELSE ""
+              IN IF rk = "" THEN after ELSE [x \in DOMAIN after \cup {rk} |-> IF x = rk THEN now ELSE after[x]]
     [] e.op.op = "PruneCount" ->
          \* bound to the observation: the keys that are gone are gone, failing candidates were refreshed
          LET gone == Present \ S(e.members)
